@@ -374,7 +374,9 @@ class TrajectoryCalc:
         # region Trajectory Loop
         warnings.simplefilter("once")  # used to avoid multiple warnings in a loop
         it = 0  # iteration counter
-        while range_vector.x <= maximum_range + min_step:
+        while (range_vector.x <= maximum_range + min_step
+               # a step longer than min_step (tail wind) must not skip the last requested record
+               or (filter_flags and record_step > 0 and data_filter.next_record_distance <= maximum_range + min_step)):
             it += 1
             data_filter.clear_current_flag()
 
